@@ -145,10 +145,14 @@ def oracle(case, limit_n):
             routes = f"raised {type(e).__name__}"
         if routes != [list(w) for w in W]:
             return ("decode", f"get_routes returned {routes} for walks {W}", {"x": list(x), "walks": [list(w) for w in W]}), info
-        if strict_applies:
+        if case["strict"]:
+            # whole walk when the (0,0) arc is harmless (C07_strict_time_all_histories); otherwise the route of the walk:
+            # up to and including the return to the depot (C07_strict_time_route_all_histories, no hypothesis on (0,0))
             for w in W:
                 t = nodes[0][0]
                 for s in range(L):
+                    if not strict_applies and (w[1] == 0 or any(w[k] == 0 for k in range(1, s))):
+                        break
                     if s > 0:
                         t = max(nodes[w[s]][0], t + arcd[(w[s - 1], w[s])][0])
                     if t > nodes[w[s]][1]:
